@@ -33,7 +33,9 @@
 (***************************************************************************)
 EXTENDS Naturals, Sequences, FiniteSets, TLC
 
-CONSTANTS NCol, NRow, Guarded
+CONSTANTS NCol, NRow, Guarded,
+          SRow,         \* clone_from: rows of the source table (smaller or larger than NRow)
+          Ops           \* the operations explored
 
 Cols == 1..NCol
 Tok(c, r) == <<c, r>>                       \* initial value of column c, row r
@@ -42,12 +44,17 @@ VARIABLES cells,      \* cells[c]: sequence of tokens physically present in colu
           dropped,    \* set of tokens whose Drop has run
           twice,      \* tokens dropped more than once (history)
           op, col, idx, pc,   \* running operation, current column, row operand, phase
-          held        \* Guarded: values moved out and not yet dropped
-vars == <<cells, length, dropped, twice, op, col, idx, pc, held>>
+          held,       \* Guarded: values moved out and not yet dropped
+          phase, olen, \* clone_from: step within the current column; the length the loop works with
+          stale,      \* columns whose recorded (pointer, capacity) name a buffer that was reallocated
+          uaf,        \* history: a freed buffer was used
+          cloned      \* clone_from has been started once (its clones carry fixed token names)
+vars == <<cells, length, dropped, twice, op, col, idx, pc, held, phase, olen, stale, uaf, cloned>>
 
 Init == /\ cells = [c \in Cols |-> [r \in 1..NRow |-> Tok(c, r)]]
         /\ length = NRow /\ dropped = {} /\ twice = {}
         /\ op = "idle" /\ col = 1 /\ idx = 1 /\ pc = "go" /\ held = <<>>
+        /\ phase = "trunc" /\ olen = NRow /\ stale = {} /\ uaf = FALSE /\ cloned = FALSE
 
 Drop(t) == /\ twice' = IF t \in dropped THEN twice \cup {t} ELSE twice
            /\ dropped' = dropped \cup {t}
@@ -59,10 +66,11 @@ SwapRemoved(s, i) == IF i = Len(s) THEN SubSeq(s, 1, Len(s) - 1)
 AfterSwap(s, i, n) == [k \in 1..Len(s) |-> IF k = i THEN s[n] ELSE s[k]]
 
 Begin == /\ op = "idle" /\ pc = "go" /\ length > 0
-         /\ \E o \in {"remove", "clear"} : op' = o
+         /\ \E o \in Ops \ (IF cloned THEN {"clone_from"} ELSE {}) : op' = o
          /\ \E i \in 1..length : idx' = i
-         /\ col' = 1 /\ held' = <<>>
-         /\ UNCHANGED <<cells, length, dropped, twice, pc>>
+         /\ col' = 1 /\ held' = <<>> /\ phase' = "trunc" /\ olen' = length
+         /\ cloned' = (cloned \/ op' = "clone_from")
+         /\ UNCHANGED <<cells, length, dropped, twice, pc, stale, uaf>>
 
 (* ---- World::remove as coded: per column, swap_remove then Drop of the removed value ---------- *)
 RemoveStep ==
@@ -72,10 +80,13 @@ RemoveStep ==
      /\ \/ Drop(removed) /\ pc' = "go" /\ col' = col + 1            \* Drop returns
         \/ Drop(removed) /\ pc' = "panicked" /\ UNCHANGED col       \* Drop panics (the value counts as dropped)
   /\ UNCHANGED <<length, op, idx, held>>
+  /\ UNCHANGED <<phase, olen, stale, uaf, cloned>>
+
 RemoveFinish ==
   /\ op = "remove" /\ pc = "go" /\ ~Guarded /\ col > NCol
   /\ length' = length - 1 /\ op' = "idle"
   /\ UNCHANGED <<cells, dropped, twice, col, idx, pc, held>>
+  /\ UNCHANGED <<phase, olen, stale, uaf, cloned>>
 
 (* ---- repaired design: move the row out of every column, fix the length, then drop ------------ *)
 GRemoveMove ==
@@ -84,10 +95,14 @@ GRemoveMove ==
   /\ cells' = [cells EXCEPT ![col] = AfterSwap(@, idx, length)]
   /\ col' = col + 1
   /\ UNCHANGED <<length, dropped, twice, op, idx, pc>>
+  /\ UNCHANGED <<phase, olen, stale, uaf, cloned>>
+
 GRemoveCommit ==
   /\ op = "remove" /\ pc = "go" /\ Guarded /\ col = NCol + 1
   /\ length' = length - 1 /\ col' = NCol + 2
   /\ UNCHANGED <<cells, dropped, twice, op, idx, pc, held>>
+  /\ UNCHANGED <<phase, olen, stale, uaf, cloned>>
+
 GRemoveDrop ==
   /\ op = "remove" /\ Guarded /\ col = NCol + 2 /\ pc \in {"go", "unwinding"}
   /\ IF held = <<>> THEN /\ op' = "idle" /\ pc' = IF pc = "unwinding" THEN "panicked" ELSE "go"
@@ -96,6 +111,7 @@ GRemoveDrop ==
           /\ \/ UNCHANGED pc
              \/ pc = "go" /\ pc' = "unwinding"      \* a Drop panics: the remaining held values are still dropped by unwinding
   /\ UNCHANGED <<cells, length, col, idx>>
+  /\ UNCHANGED <<phase, olen, stale, uaf, cloned>>
 
 (* ---- World::clear as coded: per column Vec::clear, length reset afterwards -------------------- *)
 ClearStep ==
@@ -106,10 +122,14 @@ ClearStep ==
   /\ \/ pc' = "go" /\ col' = col + 1
      \/ pc' = "panicked" /\ UNCHANGED col      \* one of the Drops panicked; Vec dropped the rest of this column
   /\ UNCHANGED <<cells, length, op, idx, held>>
+  /\ UNCHANGED <<phase, olen, stale, uaf, cloned>>
+
 ClearFinish ==
   /\ op = "clear" /\ pc = "go" /\ col > NCol
   /\ length' = 0 /\ op' = "idle"
   /\ UNCHANGED <<cells, dropped, twice, col, idx, pc, held>>
+  /\ UNCHANGED <<phase, olen, stale, uaf, cloned>>
+
 GClear ==      \* repaired: the length is reset before any Drop runs
   /\ op = "clear" /\ pc = "go" /\ Guarded /\ col = 1
   /\ LET toks == UNION {{cells[c][r] : r \in 1..length} : c \in Cols} IN
@@ -118,6 +138,7 @@ GClear ==      \* repaired: the length is reset before any Drop runs
   /\ length' = 0 /\ col' = NCol + 1
   /\ \/ UNCHANGED pc \/ pc' = "panicked"
   /\ UNCHANGED <<cells, op, idx, held>>
+  /\ UNCHANGED <<phase, olen, stale, uaf, cloned>>
 
 (* ---- after a panic (or at any idle moment) the table is dropped ------------------------------- *)
 DropTable ==
@@ -125,15 +146,68 @@ DropTable ==
   /\ LET toks == UNION {{cells[c][r] : r \in 1..length} : c \in Cols} IN
      /\ twice' = twice \cup (toks \cap dropped)
      /\ dropped' = dropped \cup toks
+  /\ uaf' = (uaf \/ stale # {})          \* every column buffer is released through its recorded raw parts
   /\ length' = 0 /\ pc' = "done"
-  /\ UNCHANGED <<cells, op, col, idx, held>>
+  /\ UNCHANGED <<cells, op, col, idx, held, phase, olen, stale, cloned>>
+
+(* ---- World::clone_from on a table both worlds have: per column Vec::clone_from ------------------ *)
+(* truncate to the source length (drops the tail; Vec's own length is set first), then element-wise  *)
+(* clone_from on the common prefix (Clone call-back, then the old value is dropped and replaced),     *)
+(* then reserve + clone the rest (the reserve may move the buffer: the recorded raw parts are stale    *)
+(* until they are written back after the column), the shared length is written after all columns.     *)
+(* Guarded: the table is detached first (length 0), raw parts are written back right after the reserve *)
+Clone(c, r) == <<c, 100 + r>>
+CFDetach ==
+  /\ op = "clone_from" /\ pc = "go" /\ Guarded /\ col = 1 /\ phase = "trunc" /\ length > 0
+  /\ length' = 0
+  /\ UNCHANGED <<cells, dropped, twice, op, col, idx, pc, held, phase, olen, stale, uaf, cloned>>
+CFReady == op = "clone_from" /\ pc = "go" /\ col <= NCol /\ (Guarded => length = 0)
+CFTrunc ==
+  /\ CFReady /\ phase = "trunc"
+  /\ LET toks == {cells[col][r] : r \in (SRow + 1)..olen} IN
+     /\ twice' = twice \cup (toks \cap dropped)
+     /\ dropped' = dropped \cup toks
+     /\ \/ pc' = "go" /\ phase' = "over" /\ idx' = 1
+        \/ toks # {} /\ pc' = "panicked" /\ UNCHANGED <<phase, idx>>
+  /\ UNCHANGED <<cells, length, op, col, held, olen, stale, uaf, cloned>>
+CFOver ==
+  /\ CFReady /\ phase = "over"
+  /\ LET n == IF olen < SRow THEN olen ELSE SRow IN
+     IF idx > n
+     THEN \* common prefix done: reserve for the rest
+          /\ phase' = "ext" /\ idx' = olen + 1
+          /\ stale' = IF SRow > olen /\ ~Guarded THEN stale \cup {col} ELSE stale
+          /\ UNCHANGED <<cells, dropped, twice, pc>>
+     ELSE \/ pc' = "panicked" /\ UNCHANGED <<cells, dropped, twice, phase, idx, stale>>      \* Clone panics
+          \/ /\ Drop(cells[col][idx])                                                           \* old value dropped,
+             /\ cells' = [cells EXCEPT ![col][idx] = Clone(col, idx)]                           \* replaced (also on unwind)
+             /\ \/ pc' = "go" /\ idx' = idx + 1
+                \/ pc' = "panicked" /\ UNCHANGED idx
+             /\ UNCHANGED <<phase, stale>>
+  /\ UNCHANGED <<length, op, col, held, olen, uaf, cloned>>
+CFExt ==
+  /\ CFReady /\ phase = "ext"
+  /\ IF idx > SRow
+     THEN \* column done: raw parts written back
+          /\ stale' = stale \ {col} /\ col' = col + 1 /\ phase' = "trunc"
+          /\ UNCHANGED <<cells, pc, idx>>
+     ELSE \/ pc' = "panicked" /\ UNCHANGED <<cells, idx, col, phase, stale>>                 \* Clone panics
+          \/ /\ cells' = [cells EXCEPT ![col] = [k \in 1..idx |-> IF k < idx /\ k <= Len(@) THEN @[k] ELSE Clone(col, idx)]]
+             /\ idx' = idx + 1 /\ UNCHANGED <<pc, col, phase, stale>>
+  /\ UNCHANGED <<length, dropped, twice, op, held, olen, uaf, cloned>>
+CFFinish ==
+  /\ op = "clone_from" /\ pc = "go" /\ col > NCol
+  /\ length' = SRow /\ op' = "idle"
+  /\ UNCHANGED <<cells, dropped, twice, col, idx, pc, held, phase, olen, stale, uaf, cloned>>
 
 Next == Begin \/ RemoveStep \/ RemoveFinish \/ GRemoveMove \/ GRemoveCommit \/ GRemoveDrop
-        \/ ClearStep \/ ClearFinish \/ GClear \/ DropTable \/ (pc = "done" /\ UNCHANGED vars)
+        \/ ClearStep \/ ClearFinish \/ GClear \/ DropTable
+        \/ CFDetach \/ CFTrunc \/ CFOver \/ CFExt \/ CFFinish \/ (pc = "done" /\ UNCHANGED vars)
 Spec == Init /\ [][Next]_vars
 
 Reachable == UNION {{cells[c][r] : r \in 1..length} : c \in Cols}
 NoDoubleDrop == twice = {}
 NoDroppedReachable == (op = "idle" \/ pc = "panicked") => (Reachable \cap dropped = {})
-PanicSafe == NoDoubleDrop /\ NoDroppedReachable
+NoFreedBufferUsed == ~uaf
+PanicSafe == NoDoubleDrop /\ NoDroppedReachable /\ NoFreedBufferUsed
 =============================================================================
